@@ -900,7 +900,15 @@ static void gen_expr(Node *node) {
       println("  and %%r9, %%rax");
       println("  or %%rdi, %%rax");
       store(node->ty);
+
+      // The value of the assignment is the value the bit-field now holds,
+      // i.e. the right-hand side truncated to the width of the field.
       println("  mov %%r8, %%rax");
+      println("  shl $%d, %%rax", 64 - mem->bit_width);
+      if (mem->ty->is_unsigned)
+        println("  shr $%d, %%rax", 64 - mem->bit_width);
+      else
+        println("  sar $%d, %%rax", 64 - mem->bit_width);
       return;
     }
 
